@@ -44,6 +44,9 @@ def plan(tier, seed):
     jobs.append({'fn': 'scat_forward', 'cfg': {'order': 2, 'magbias': 0.3}, 'grid': {'H': [16], 'W': [16]}})
     jobs.append({'fn': 'scat_forward', 'cfg': {'order': 1, 'magbias': 0.0}, 'grid': {'H': [8], 'W': [8]}})
     # zero bias on images with exactly-zero regions (and the all-zero image): sqrt(0) - 0 = 0, never 0/0; and layers switched to eval()
+    for col, bi_ in ((True, 'near_sym_a'), (True, 'near_sym_b_bp'), (False, 'near_sym_b_bp')):
+        for o in (1, 2):
+            jobs.append({'fn': 'scat_forward', 'cfg': {'order': o, 'magbias': 0.0, 'zero_image': True, 'colour': col, 'biort': bi_}, 'grid': {'H': [16], 'W': [16]}})
     for o in (1, 2):
         jobs.append({'fn': 'scat_forward', 'cfg': {'order': o, 'magbias': 0.0, 'sparse': True}, 'grid': {'H': [16], 'W': [16]}})
         jobs.append({'fn': 'scat_forward', 'cfg': {'order': o, 'magbias': 0.0, 'zero_image': True}, 'grid': {'H': [16], 'W': [16]}})
